@@ -283,6 +283,7 @@ def extract_wrappers(repo, root):
         d = _sub(ex, 'R2-tests', r'(?ms)^#\[cfg\(test\)\].*', '', d)
         for crate in ['curve25519_dalek', 'blake2', 'sha2', 'chacha20poly1305', 'aes_gcm', 'rand_core', 'ring']:
             d = _sub(ex, 'R16-use', r'(?m)^use %s::' % crate, 'use crate::deps::%s::' % crate, d)
+        d = _sub(ex, 'R16-use', r'(?m)^use p256::', 'use crate::deps_p256::p256::', d)
         d = _sub(ex, 'R16-use', r'(?<![\w:])aes_gcm::Aes256Gcm::new\(', 'crate::deps::aes_gcm::Aes256Gcm::new(', d)
         d = _sub(ex, 'R15', r'&?nonce\.to_(le|be)_bytes\(\)', r'crate::wshim::u64_to_\1_bytes(nonce)', d)
         d = _sub(ex, 'R11-closure', r'\|_\|', '|_e|', d)
